@@ -21,8 +21,10 @@ import (
 	ibctesting "github.com/cosmos/ibc-go/v3/testing"
 
 	"github.com/ethereum/go-ethereum/common"
+	"github.com/ethereum/go-ethereum/crypto"
 
 	"github.com/teleport-network/teleport/app"
+	erc20contracts "github.com/teleport-network/teleport/syscontracts/erc20"
 	aggtypes "github.com/teleport-network/teleport/x/aggregate/types"
 )
 
@@ -35,6 +37,13 @@ type ICSWorld struct {
 	A, B  *ibctesting.TestChain
 	Path  *ibctesting.Path
 	seq   uint64
+	X     common.Address // an externally-owned ERC-20 on B (deployed and mintable by XOwner)
+}
+
+// the deployer and minter of X is the fee collector's address (an existing account whose nonce nobody else uses);
+// the pair is registered as externally owned through RegisterERC20
+func (w *ICSWorld) xOwner() common.Address {
+	return common.BytesToAddress(authtypes.NewModuleAddress(authtypes.FeeCollectorName))
 }
 
 func newICSWorld(t *testing.T) *ICSWorld {
@@ -50,6 +59,17 @@ func newICSWorld(t *testing.T) *ICSWorld {
 	coord.Setup(path)
 	w := &ICSWorld{Coord: coord, A: a, B: b, Path: path}
 	w.fixHeaders()
+	// the external token X
+	ctor, err := erc20ABI.Pack("", "ext", "EXT", uint8(18))
+	must(err)
+	k := w.appB().AggregateKeeper
+	nonce := w.appB().EvmKeeper.GetNonce(w.B.GetContext(), w.xOwner())
+	w.X = crypto.CreateAddress(w.xOwner(), nonce)
+	res, err := k.CallEVMWithData(w.B.GetContext(), w.xOwner(), nil, append(append([]byte{}, erc20contracts.ERC20MinterBurnerDecimalsContract.Bin...), ctor...))
+	must(err)
+	if res.Failed() {
+		panic("deploy X: " + res.VmError)
+	}
 	return w
 }
 
@@ -99,14 +119,16 @@ func (w *ICSWorld) project(denoms map[string]string) M {
 	ctx := w.B.GetContext()
 	a := w.appB()
 	mod := authtypes.NewModuleAddress(aggtypes.ModuleName)
-	st := M{"enabled": a.AggregateKeeper.GetParams(ctx).EnableAggregate}
+	st := M{"enabled": a.AggregateKeeper.GetParams(ctx).EnableAggregate, "xreg": a.AggregateKeeper.IsERC20Registered(ctx, w.X),
+		"mx": w.viewBal(w.X, common.BytesToAddress(mod))}
 	for abs, d := range denoms {
 		e := M{"vbal": a.BankKeeper.GetBalance(ctx, w.userB(), d).Amount.Int64(), "esc": a.BankKeeper.GetBalance(ctx, mod, d).Amount.Int64(),
-			"sup": a.BankKeeper.GetSupply(ctx, d).Amount.Int64(), "registered": false, "pairon": false, "tok": 0}
+			"sup": a.BankKeeper.GetSupply(ctx, d).Amount.Int64(), "registered": false, "pairon": false, "tok": 0, "ext": false}
 		if c, ok := w.erc20Of(d); ok {
 			id := a.AggregateKeeper.GetDenomMap(ctx, d)
 			p, _ := a.AggregateKeeper.GetTokenPair(ctx, id)
 			e["registered"], e["pairon"], e["tok"] = true, p.Enabled, w.viewBal(c, common.BytesToAddress(w.userB()))
+			e["ext"] = c == w.X
 		}
 		st[abs] = e
 	}
@@ -181,6 +203,23 @@ func driveICS20(t *testing.T, in, out string, seed int64) {
 			case "Toggle":
 				res, msg := execProposalOn(w, aggtypes.NewToggleTokenRelayProposal("t", "d", denoms[str(st["denom"])]))
 				line["res"], line["msg"] = res, clip(msg)
+			case "RegisterExt":
+				res, msg := execProposalOn(w, aggtypes.NewRegisterERC20Proposal("t", "d", w.X.String()))
+				line["res"], line["msg"] = res, clip(msg)
+			case "AddExt":
+				d := denoms[str(st["denom"])]
+				md := banktypes.Metadata{Description: "ibc voucher", Base: d, Display: d, Name: "channel-0 " + str(st["denom"]), Symbol: "ibc" + strings.ToUpper(str(st["denom"])),
+					DenomUnits: []*banktypes.DenomUnit{{Denom: d, Exponent: 0}}}
+				res, msg := execProposalOn(w, aggtypes.NewAddCoinProposal("t", "d", md, w.X.String()))
+				line["res"], line["msg"] = res, clip(msg)
+			case "Fund":
+				// the owner of X mints to the module account (what the module can pay out for conversions into X)
+				mod := common.BytesToAddress(authtypes.NewModuleAddress(aggtypes.ModuleName))
+				res, err := a.AggregateKeeper.CallEVMWithData(w.B.GetContext(), w.xOwner(), &w.X, mustPack(erc20ABI, "mint", mod, big.NewInt(num(st["n"]))))
+				line["res"] = "ok"
+				if err != nil || res.Failed() {
+					line["res"] = "err"
+				}
 			case "Param":
 				content := paramproposal.NewParameterChangeProposal("t", "d", []paramproposal.ParamChange{
 					paramproposal.NewParamChange(aggtypes.ModuleName, string(aggtypes.ParamStoreKeyEnableAggregate), fmt.Sprint(st["on"].(bool)))})
